@@ -68,6 +68,12 @@ func c08Gen(r *driver.Rand, thorough bool) *driver.Plan {
 		total += n
 		senders = append(senders, elems(i, n))
 	}
+	if r.Chance(1, 150) {
+		// a backlog of hundreds of values (queue growth and shrink thresholds)
+		senders = [][]int{elems(0, driver.Pick(r, 260, 300, 600))}
+		total = len(senders[0])
+		ns = 1
+	}
 	p := c08Plan(genCap(r), senders, driver.Pick(r, 1, 1, 1, 2))
 	p.Producers = nil
 	p.Consumers = nil
@@ -78,10 +84,15 @@ func c08Gen(r *driver.Rand, thorough bool) *driver.Plan {
 			p.Producers[i].DelaysMs = []int{0, 0, driver.Pick(r, 5, 20), 0}
 		}
 	}
-	if r.Chance(1, 3) {
+	if r.Chance(1, 3) || total > 200 {
 		for i := range p.Consumers {
 			p.Consumers[i].StartMs = driver.Pick(r, 5, 30, 100, 1500, 61000)
 		}
+	}
+	if total > 200 && r.Chance(1, 2) {
+		// drain to empty, then refill
+		p.Producers[0].DelaysMs = nil
+		p.SetX("refill", 1)
 	}
 	for i := range p.Consumers {
 		switch r.Intn(8) {
@@ -177,6 +188,11 @@ func c08Build(e *driver.Env) {
 				e.Fault("producer_stall")
 			}
 			for i, v := range p.Senders[si] {
+				if p.X("refill") == 1 && i == len(p.Senders[si])*2/3 {
+					// let the receiver drain the backlog to empty, then refill
+					simrt.Sleep(name+".pause", 100*time.Second)
+					e.Fault("producer_stall")
+				}
 				if len(pp.DelaysMs) > 0 {
 					if d := pp.DelaysMs[i%len(pp.DelaysMs)]; d > 0 {
 						simrt.Sleep(name+".stall", time.Duration(d)*time.Millisecond)
@@ -266,8 +282,8 @@ func c08Build(e *driver.Env) {
 func c08Online(st *c08State, ri, v int) {
 	e := st.e
 	p := e.Plan
-	si := v / 1000
-	idx := v % 1000
+	si := v / stride
+	idx := v % stride
 	if si < 0 || si >= len(p.Senders) || idx >= len(p.Senders[si]) || p.Senders[si][idx] != v {
 		e.Failf("C08.f", "received a value that was never sent", "received %d; senders %v", v, p.Senders)
 		return
@@ -297,7 +313,7 @@ func c08Online(st *c08State, ri, v int) {
 		// single receiver: values of one sender arrive in send order without gaps
 		cnt := 0
 		for _, x := range st.recvAll[:len(st.recvAll)-1] {
-			if x/1000 == si {
+			if x/stride == si {
 				cnt++
 			}
 		}
@@ -336,6 +352,23 @@ func c08Final(e *driver.Env) {
 		}
 	}
 	ended := cancelled || st.closeSent
+	if !ended && anyDraining {
+		// nothing ended the stream and a receiver keeps receiving: everything
+		// whose send completed has arrived by now (no lost wake-up)
+		got := map[int]bool{}
+		for _, v := range st.recvAll {
+			got[v] = true
+		}
+		for si := range st.sent {
+			for _, v := range st.sent[si] {
+				if !got[v] {
+					e.Failf("C08.b", "a value whose send had completed is never delivered although the receiver keeps receiving",
+						"cap=%d: value %d stuck; sent %v received %v (no cancel, no close); tasks: %s", p.Cap, v, st.sent, st.recvAll, driver.DescribeTasks(e.LibTasksAlive(nil)))
+					return
+				}
+			}
+		}
+	}
 	if ended && anyDraining {
 		// completeness: every value whose send completed is delivered before
 		// the receive side closes, and it does close
